@@ -34,7 +34,8 @@ GenStep ==
 
 GenNext == GenStep /\ PrintT(<<"T", ToJson(hist')>>)
 
-\* completed commands are history: only the pending ones (with what they accumulated) and the
-\* number of commands issued distinguish states for the purpose of transition coverage
-GenView == <<cstate, mbox, alive, Len(cmds), {<<cmds[i].kind, cmds[i].arg, cmds[i].acc>> : i \in PendingIds}>>
+\* completed commands are history: their status and data are not part of the view, but WHICH positions of the
+\* submission order are still pending is (the client keeps its pending commands in a list)
+GenView == <<cstate, mbox, alive,
+             [i \in 1..Len(cmds) |-> IF cmds[i].st = "pending" THEN <<cmds[i].kind, cmds[i].arg, cmds[i].acc>> ELSE <<"done">>]>>
 =============================================================================
